@@ -14,6 +14,7 @@ CONSTANTS MetaSizeChecked, InodeTypeChecked, DirCountChecked, NameSizeChecked, F
           TableBoundsChecked,
           FragSumNoWrap,      \* sqfs_data_reader_get_fragment: offset + tail size is compared without 32 bit wrap-around
           XattrAbsenceChecked, \* reading the xattrs of an inode checks that the xattr tables were loaded at all
+          XattrKvChecked,      \* the key/value area is read with bounds: prefix id known, key / value sizes inside the area, out-of-line references inside it
           LongLinkBySize,     \* sqfs2tar decides "needs a GNU long link record" by the same length it later copies (the on-disk target size)
           Emit
 
@@ -33,10 +34,11 @@ Fields == [ super_block_size : {"ok", "zero", "notpow2", "huge"},
             xattr_idx        : {"ok", "outofrange"},
             id_idx           : {"ok", "outofrange"},
             slink_size       : {"ok", "beyond_string", "huge"},
+            xattr_kv         : {"ok", "prefix_bad", "key_huge", "val_huge", "ool_oob", "count_huge"},    \* first pair of set 0 / pair count of set 0
             xattr_table      : {"ok", "absent"} ]     \* super block: no xattr table (start = ~0) although the NO_XATTRS flag is clear and an inode names set 0   \* target size field: larger than the string (runs into the next inodes, NUL inside) / huge
 Names == DOMAIN [super_block_size |-> 0, super_id_count |-> 0, table_start |-> 0, meta_hdr_size |-> 0, inode_type |-> 0, dir_count |-> 0,
                  dir_size |-> 0, name_size |-> 0, entry_ref |-> 0, blk_word |-> 0, blk_count |-> 0, frag_idx |-> 0, frag_off |-> 0,
-                 xattr_idx |-> 0, id_idx |-> 0, slink_size |-> 0, xattr_table |-> 0]
+                 xattr_idx |-> 0, id_idx |-> 0, slink_size |-> 0, xattr_kv |-> 0, xattr_table |-> 0]
 Corrupted(p) == {f \in Names : p[f] # "ok"}
 
 (* outcome of one consumer over plan p: "ok" | "reject" | "overflow" | "hang" *)
@@ -66,7 +68,8 @@ FragApiStep(p) == IF p.frag_idx = "outofrange" THEN (IF FragIdxChecked THEN "rej
 (* GNU long link record was written; both decisions must use the same length (the string may be shorter: NUL inside) *)
 LinkHdrStep(p) == IF p.slink_size = "beyond_string" THEN (IF LongLinkBySize THEN "go" ELSE "overflow") ELSE "go"
 XattrStep(p) == IF p.xattr_table = "absent" THEN (IF XattrAbsenceChecked THEN "go" ELSE "overflow")       \* set 0 without tables: empty list (or an error), not a NULL reader
-                ELSE IF p.xattr_idx = "outofrange" THEN (IF XattrIdxChecked THEN "reject" ELSE "overflow") ELSE "go"
+                ELSE IF p.xattr_idx = "outofrange" THEN (IF XattrIdxChecked THEN "reject" ELSE "overflow")
+                ELSE IF p.xattr_kv # "ok" THEN (IF XattrKvChecked THEN "reject" ELSE "overflow") ELSE "go"
 
 RECURSIVE Chain(_)
 Chain(steps) == IF steps = <<>> THEN "ok" ELSE IF Head(steps) = "go" THEN Chain(Tail(steps)) ELSE Head(steps)
